@@ -273,7 +273,11 @@ def build(desc):
         out += struct.pack("<IQHHIIQQQQ", 0x06064b50, 44, 45, 45, 0, 0, n, n, cd_size, cd_off)
         out += struct.pack("<IIQI", 0x07064b50, 0, z64_off, 1)
         s = desc.get("z64_sentinels", "all")
-        if s == "all":
+        if s == "all+disks":   # every field of the short end record deferred to the ZIP64 records, the disk numbers too (APPNOTE 4.4.1.4)
+            out += struct.pack("<IHHHHIIH", 0x06054b50, S16, S16, S16, S16, S32, S32, len(comment)) + comment
+        elif s == "disks":     # only the disk numbers deferred
+            out += struct.pack("<IHHHHIIH", 0x06054b50, S16, S16, min(n, S16), min(n, S16), min(cd_size, S32), min(cd_off, S32), len(comment)) + comment
+        elif s == "all":
             out += struct.pack("<IHHHHIIH", 0x06054b50, 0, 0, S16, S16, S32, S32, len(comment)) + comment
         else:   # only the fields that need it
             out += struct.pack("<IHHHHIIH", 0x06054b50, 0, 0, min(n, S16), min(n, S16), min(cd_size, S32),
